@@ -25,6 +25,13 @@ CLAIMED = {
             "against exact rational arithmetic with a derived rounding bound, each depth-2 path for round trip and "
             "chained-vs-direct agreement. Exhaustive within those bounds; no sampling.",
             TRUST_E1, "5.1"),
+    "C02": (E1, "bounded exhaustive enumeration of product states (two values in two units) with all seven relations evaluated in both operand orders on the real code, judged by an exact-rational order oracle",
+            "All ordered unit pairs of all types with a reference unit, both back-ends; left amounts from the value and "
+            "special alphabets, right amounts from the same alphabets plus the amount that denotes the same magnitude in "
+            "the other unit and its representable neighbours (forced collisions). Order independence is checked on every "
+            "non-NaN state, physical correctness on every state whose magnitudes differ by more than one conversion "
+            "error, identity with the amount comparison on every same-unit state. Exhaustive within those bounds.",
+            TRUST_E1, "5.2"),
 }
 
 PENDING_REASON = "check not built yet in this revision of /verif (see DESIGN.md section 5 for the planned exploration)"
